@@ -1024,7 +1024,7 @@ pub fn execute(ctx: &Ctx, scv: &serde_json::Value, rd: &RunDir, stats: &mut Stat
                         call.args.push(OsString::from_vec(b"/tmp/\xff\xfe".to_vec()));
                         let o = run_zerv(ctx, rd, &call, rn.stats);
                         rn.stats.bump("children");
-                        rn.stats.event(format!("case {case} -> {} err={}", o.status_str(), short(&o.err_str(), 200)));
+                        rn.stats.event(format!("case {case} -> {} err={}", o.status_str(), short(&norm(ctx, &o.err_str()), 200)));
                         let mut argv = c2.argv.clone();
                         argv.push("-C".into());
                         argv.push("<non-UTF-8 bytes>".into());
